@@ -80,6 +80,9 @@ class Tracker:
         elif op == "Drop2":
             self.reg[2] = {}
             self.has2 = False
+        elif op == "New2":
+            self.reg[2] = {}
+            self.has2 = True
 
 
 def rand_objs(rnd, cfg, classes=None):
@@ -126,6 +129,8 @@ def hist_event(e):
         return {"op": "Take", "a": {"how": e["how"]}}
     if op == "D":
         return {"op": "Drop2", "a": {"z": 0}}
+    if op == "N":
+        return {"op": "New2", "a": {"z": 0}}
     raise ValueError("history event %r" % (e,))
 
 
@@ -220,7 +225,11 @@ def sim_scripts(simdir):
 
 
 # ------------------------------------------------------------------- random scripts (C->S)
-def random_script(rnd, kind, can_erase, can_copy, nexec, nops, ars, fl="exc", bf=None, small=False, kmax=5):
+BEH_IDS = [50, 51, 52, 60, 61, 62]     # throwing and nesting handlers (specs/Dispatch.tla, BehOfIn)
+REG_IDS = [70, 71, 72]                 # handlers that register while they run (advisory scripts only)
+
+
+def random_script(rnd, kind, can_erase, can_copy, nexec, nops, ars, fl="exc", bf=None, small=False, kmax=5, beh=(), new2=False):
     lines = []
     for _ in range(nexec):
         if small:
@@ -248,6 +257,8 @@ def random_script(rnd, kind, can_erase, can_copy, nexec, nops, ars, fl="exc", bf
                     t = [rnd.choice(known) for _ in range(ar)]
                 nh += 1
                 h = nh if rnd.random() < 0.7 else rnd.randint(1, 9)
+                if beh and rnd.random() < 0.5:
+                    h = rnd.choice(list(beh))
                 a = {"t": t, "h": h}
                 if d != 1 or rnd.random() < 0.3:
                     a["d"] = d
@@ -261,7 +272,9 @@ def random_script(rnd, kind, can_erase, can_copy, nexec, nops, ars, fl="exc", bf
                 ev = {"op": "Erase", "a": {"d": d, "t": t}}
             elif c < 0.62 and can_copy:
                 c2 = rnd.random()
-                if not trk.has2 or c2 < 0.3:
+                if new2 and c2 < 0.12:
+                    ev = {"op": "New2", "a": {"z": 0}}
+                elif not trk.has2 or c2 < 0.3:
                     ev = {"op": "Clone", "a": {"how": rnd.choice(CLONE_HOWS if trk.has2 else ["ctor"])}}
                 elif c2 < 0.85:
                     ev = {"op": "Take", "a": {"how": rnd.choice(TAKE_HOWS)}}
